@@ -40,6 +40,24 @@ Supported subset (see ``Fn`` below; everything else raises ``Unsupported``):
                ``re.match(<literal>, s)`` / ``<compiled global>.search(s)`` for the pattern texts the run-time has a
                matcher for, reads of the world outside (``EXTERNAL_READS``/``EXTERNAL_CALLS``/``EXTERNAL_HASATTR``: the
                function then takes the environment table ``PyRt.Env`` as its first parameter)
+Second round (blocks marked `x2`; run-time additions in ``lean/PkgModel/PyRx.lean``):
+  compiled patterns  ``<compiled global>.match/.search(s)`` of a pattern registered with ``translate.regex_source``
+               becomes acceptance by the verified matcher on the regenerated term (``PyRx.rx_test Gen.<Name>…``; truth
+               value only, no groups); ``_canonicalize_regex.sub``, ``_build_tag_regex.match`` and the inline
+               ``re.match`` of ``parse_wheel_filename`` go to structure-specific primitives over the tables that
+               ``translators/names.py`` measures from the same objects (``MEASURED_PATTERNS`` / ``MEASURED_INLINE``);
+               any other ``re.match(<literal>, s)`` is accepted when the literal is a sequence of literal characters
+               and ``<atom>+`` runs whose greedy reading is the only one (``_seq_pattern``; classes swept from the
+               interpreter's parser), ``m.group("<name>")`` is resolved to the group's index
+  sets         ``set()``, ``s.add(x)`` on an owned local, ``frozenset(xs)`` / ``set(xs)``, ``x in {c1, c2}``: members in
+               insertion order without duplicates modulo the *translated* ``__eq__`` of the member class (which must
+               also define ``__hash__``) or ``==`` of plain values; hash-table order is not modelled
+  other        ``typing.cast``; ``<module-level dict of constants>.get(k[, d])`` (current contents inlined);
+               ``raise C(...) from e``; ``warnings.warn`` dropped like logging; ``.lower()`` is the full per-code-point
+               table in ``FULL_LOWER_MODULES`` (ASCII elsewhere); ``s.count(c)``; unary minus; a parameter narrowed by a
+               top-level ``if not isinstance(p, C): return/raise``; a list bound to fresh values in every branch of a
+               top-level ``if`` (or returned by a library function all of whose returns are fresh) counts as owned;
+               ``and``/``or`` keep their short circuit whenever an operand contains a lifted action
 Checks made by the translator (a failure makes the function unsupported):
   * a local that may be unassigned when read is read through ``PyRt.bound`` (``UnboundLocalError`` as in CPython);
     hoisted locals start as ``PyVal.unbound``;
